@@ -22,7 +22,7 @@ RULE = ('cases = (Y, X, r, correction flag): every pair of set partitions of n<=
         'structure, S=floor(r*n), quota, #strata below quota, S mod #values, flag); non-trivial = quota>0 and (some stratum is '
         'smaller than the quota or S is not a multiple of #values), i.e. the index buffer is only partly written.')
 REQUIRED = {'bits-equal-across-processes': 200, 'groomed-heap-same-bits': 200, 'sample-model-score': 200, 'outside-sample-insensitive': 100,
-            'sampled-rows-model': 50, 'finite': 200}
+            'sampled-rows-model': 50, 'finite': 200, 'near-self-pair-under-sampling': 50}
 EXHAUSTIVE_NOTE = {'quick': 'all pairs of set partitions of n<=5 rows x r=k/(n+1), k=1..n, both flags',
                    'thorough': 'all pairs of set partitions of n<=6 rows x r=k/(n+1), k=1..n, both flags'}
 ASSUMPTIONS = ['MALLOC_PERTURB_ reaches the JIT allocations (numba NRT allocates with malloc)', 'red-zone/poisoning tools cannot see in-bounds wrong reads: covered by the row model and the metamorphic monitor',
@@ -239,6 +239,20 @@ def shard_model(sh, part, parts):
             sig, nontrivial, (S_, q_, below) = structure_sig(Y, X, r, c)
             sh.case(sig, nontrivial, cls + ('/partly-written-buffer' if nontrivial else '/full-or-no-sampling'),
                     sample={'Y': Y[:20], 'X': X[:20], 'n': n, 'r': r, 'flag': c, 'S': S, 'quota': q, 'strata_below_quota': below, 'score': s, 'model': model} if t % 500 == 0 and c else None)
+        # (3b) a feature that equals the target on every sampled row but differs elsewhere is NOT the self pair
+        if rows is not None and len(rows) < n and t % 2 == 1:
+            outside = np.setdiff1d(np.arange(n), np.array(rows))
+            Yn = X.copy()
+            k = max(1, len(outside) // 3)
+            pick = outside[nprng.choice(len(outside), k, replace=False)]
+            Yn[pick] = (X[pick] + 1 + nprng.integers(0, 3, k)).astype(np.int32)
+            ok4, s4 = sh.call('near-self-pair-under-sampling', 'estimator', est, Yn, X, r, True)
+            if ok4:
+                m4 = oracles.subsampled_score_model(Yn, X, r, True)
+                alt = oracles.subsampled_score_model(Yn, X, r, True, rows_override=sorted(rows))
+                sh.check('near-self-pair-under-sampling', oracles.close32(float(s4), m4) or oracles.close32(float(s4), alt), 'self-pair-rule-applied-to-non-identical-vectors',
+                         lambda: {'case': i, 'n': n, 'r': r, 'X': X[:300], 'Y': Yn[:300], 'rows_differing': pick[:40], 'got': float(s4), 'model_corrected': m4,
+                                  'model_if_treated_as_self_pair': oracles.subsampled_score_model(Yn, X, r, False)})
         # (4) the sampled rows themselves (module-level sampler): identify rows by giving every row a unique feature value
         if rows is not None and t % 2 == 0:
             ids = np.arange(n, dtype=np.int32)
